@@ -47,10 +47,46 @@ def plain(n):
 LAYOUTS = 4
 
 
-def render(stages, layout, tag):
+def lift_constants(lam_text, prefix):
+    """Rewrite literal constants of a lambda as references to module globals (returned as
+    definitions): the query the user means is unchanged, but the library now has to *capture*
+    the values instead of parsing them."""
+    tree = ast.parse(lam_text, mode="eval")
+    defs = {}
+
+    class L(ast.NodeTransformer):
+        def visit_Constant(self, n):
+            if type(n.value) in (int, float, bool, str):
+                name = f"{prefix}{len(defs)}"
+                defs[name] = repr(n.value)
+                return ast.copy_location(ast.Name(name, ast.Load()), n)
+            return n
+
+        def visit_Subscript(self, n):
+            n.value = self.visit(n.value)  # keep constant indices literal
+            return n
+
+        def visit_Dict(self, n):
+            n.values = [self.visit(v) for v in n.values]  # keys stay literal
+            return n
+
+    new = ast.fix_missing_locations(L().visit(tree))
+    return ast.unparse(new), defs
+
+
+def render(stages, layout, tag, lift=False):
     "Client program text for building a chain from Python callables, in one of several layouts."
     ind = ["    ", "        ", "  ", "    "][layout % LAYOUTS]
-    out = [f"def build_{tag}(ds):\n"]
+    out = []
+    if lift:
+        lifted = []
+        for i, (op, lam) in enumerate(stages):
+            text, defs = lift_constants(lam, f"K{tag}_{i}_")
+            for k, v in defs.items():
+                out.append(f"{k} = {v}\n")
+            lifted.append((op, text))
+        stages = lifted
+    out.append(f"def build_{tag}(ds):\n")
     if layout % LAYOUTS == 3:
         out.append(f"{ind}# built by node\n\n")
     out.append(f"{ind}return (ds\n")
@@ -170,7 +206,7 @@ def build(b, datasets, func_adl, simplify_chained_calls, fn_form):
     s = ds
     if mode == "callable" and len(lam_stages) == len(stages):
         tag = b["id"]
-        src = render(stages, b.get("layout", 0), tag)
+        src = render(stages, b.get("layout", 0), tag, lift=bool(b.get("lift")))
         fn = f"<nodedisk>/build_{tag}.py"
         linecache.cache[fn] = (len(src), None, src.splitlines(True), fn)
         m = types.ModuleType(f"build_{tag}")
